@@ -146,8 +146,33 @@ def write_replay(root, prop, unit, result, fresh, tu, wd):
     return path, found
 
 
+def _witness_from(raw):
+    w = {}
+    for k, v in raw.items():
+        m = re.match(r"jpv_w_(\w+?)(?:\[(\d+)l?\])?$", k)
+        if not m:
+            continue
+        name, idx = m.group(1), m.group(2)
+        if idx is None:
+            w[name] = v
+        else:
+            w.setdefault(name, {})[int(idx)] = v
+    return w
+
+
 def _replay_bv(rec, unit, result, fresh, tu, wd):
-    w = _witness(result.get("log", ""))
+    byp = result.get("witness_by_prop") or {}
+    w = {}
+    for f in fresh:
+        if f[0] in byp and byp[f[0]]:
+            w = _witness_from(byp[f[0]])
+            rec["ghost_state"] = {k: str(v) for k, v in (result.get("ghost_by_prop") or {}).get(f[0], {}).items() if not k.startswith("jpv_w_")}
+            break
+    if not w:
+        w = _witness(result.get("log", ""))
+    hook = getattr(unit, "replay_hook", None)
+    if hook is not None:
+        return hook(rec, unit, result, fresh, tu, wd, w)
     rec["witness"] = {k: (v if not isinstance(v, dict) else [v[i] for i in sorted(v)]) for k, v in w.items()}
     if not w:
         return False
